@@ -64,8 +64,11 @@ def observe(root, order_first):
         rec['loc'] = tuple(f.loc) if f.loc is not None else None
         rec['bloc'] = tuple(f.bloc) if f.bloc is not None else None
         if isinstance(n, (ast.expr, ast.pattern)):
-            p = f.pars()
-            rec['pars'] = (tuple(p), p.n) if p is not None else None
+            pv = {}
+            for sh in ((None, False, True), (False, True, None), (True, None, False))[order_first % 3]:     # the three `shared` variants asked in a rotating order
+                p = f.pars() if sh is True else f.pars(shared=sh)
+                pv[sh] = (tuple(p), p.n) if p is not None else None
+            rec['pars'] = (pv[True], pv[False], pv[None])
         if f.loc is not None:
             variants = [('d', None), ('F', False), ('T', True)]
             if order_first:
@@ -229,6 +232,7 @@ PAR_SRCS = {
     'call': 'f((a), *(b), k=(c))  # cc\ng = h[(i)](j)\n',
     'tuples': 't = (a, (b, c))\nfor (i) in (x), y: pass\n',
     'uni': 'é = ("ñ") + (ü)  # ç\n',
+    'solo': 'r = call((a))\ns = f((i for i in j))\nclass c((b)): pass\nt = g(k for k in (m))\n',
     'multi': 'm = (a +\n     (b) *\n     c)\nn = (  # c\n  d\n)\n',
 }
 PAR_OPS = [('par', {}), ('par', {'force': True}), ('unpar', {}), ('unpar', {'node': True}), ('par', {'whole': False})]
